@@ -8,3 +8,4 @@ pub mod r4;
 pub mod r9;
 pub mod r5;
 pub mod r10;
+pub mod r6;
